@@ -13,6 +13,7 @@ prop("C04",
      min_obs={"quick": {"adjoint_checks": 30000, "adjoint_checks_whole_data": 1500, "subsets_checked": 10000,
                         "related_viewgram_groups": 10000, "sub_range_tiles": 5000, "sentinel_bins_checked": 1000000,
                         "raytracing_sub_range_tiles": 300, "raytracing_sub_range_tiles_at_negative_s_only": 60,
+                        "homogeneity_checks": 1500, "homogeneity_checks_small_units": 600,
                         "zeroed_bins_checked": 100000, "accumulation_checks": 1500, "fwd_raytracing_vs_matrix_bins": 100000,
                         "cfg_raytracing_projector_unequal_xy_views_multiple_of_4": 30,
                         "cfg_raytracing_projector_unequal_xy_views_multiple_of_4_oblique": 15,
